@@ -1,10 +1,19 @@
 // ---- CHECKED: the handshake, from the statement of C20 ----
+/// "all spellings of the Connection/Upgrade header lists (case, ordering, extra tokens, whitespace)": the header
+/// value, cut at commas and spaces, has SOME item that equals the token ignoring ASCII case
+pub open spec fn has_token<'a>(list: &'a str, token: Seq<char>) -> bool {
+    exists|i: int| 0 <= i < pieces_by(list, list_separators()).len() && ascii_lower((#[trigger] pieces_by(list, list_separators())[i])@) == ascii_lower(token)
+}
 /// "a request that carries Connection: upgrade, Upgrade: websocket, version 13 and a key"
 pub open spec fn is_upgrade_request(h: HeaderMap) -> bool {
-    &&& hm_get(h, "connection"@) is Some && hv_is_text(hm_get(h, "connection"@)->Some_0) && has_token(hv_view(hm_get(h, "connection"@)->Some_0), "upgrade"@)
-    &&& hm_get(h, "upgrade"@) is Some && hv_is_text(hm_get(h, "upgrade"@)->Some_0) && has_token(hv_view(hm_get(h, "upgrade"@)->Some_0), "websocket"@)
+    &&& hm_get(h, "connection"@) is Some && hv_is_text(hm_get(h, "connection"@)->Some_0) && text_has_token(hv_view(hm_get(h, "connection"@)->Some_0), "upgrade"@)
+    &&& hm_get(h, "upgrade"@) is Some && hv_is_text(hm_get(h, "upgrade"@)->Some_0) && text_has_token(hv_view(hm_get(h, "upgrade"@)->Some_0), "websocket"@)
     &&& hm_get(h, "sec-websocket-version"@) is Some && hv_bytes(hm_get(h, "sec-websocket-version"@)->Some_0) == ascii_bytes("13"@)
     &&& hm_get(h, "sec-websocket-key"@) is Some
+}
+/// the same, for a header value given by its text (a &str is determined by its characters: A11)
+pub open spec fn text_has_token(text: Seq<char>, token: Seq<char>) -> bool {
+    exists|s: &str| s@ == text && has_token(s, token)
 }
 pub open spec fn request_key(h: HeaderMap) -> Seq<u8> { hv_bytes(hm_get(h, "sec-websocket-key"@)->Some_0) }
 
